@@ -219,7 +219,9 @@ func typeName(t *parser.Type) string {
 	if t.Annotations != nil {
 		var sb stringBuilder
 		printAnnotation(&sb, t.Annotations)
-		name = name + sb.String()
+		// the caller writes the result through writeString again: undo this
+		// builder's '&' escaping so that it is applied exactly once
+		name = name + strings.ReplaceAll(sb.String(), "&amp;", "&")
 	}
 	return name
 }
